@@ -1086,6 +1086,38 @@ def _case_keystore(case, ctx):
                 ctx.violation(f"keystore-{fn}-accepts-invalid-key-length", {"len": bad, "out": r})
             except SPSDKError as e:
                 ctx.refused(["keystore", fn, "invalid-key-length"], _brief(e))
+    # the same derivation as the user meets it: `nxpimage sb21 get-sbkek` prints the keys and stores them; the text file is the
+    # one `sb21 export -k` reads, so it holds the SBKEK itself
+    import os
+
+    from click.testing import CliRunner
+
+    from spsdk.apps import nxpimage
+
+    for j in range(3):
+        key = rb(rng, 32)
+        outdir = os.path.join(ctx.workdir, f"sbkek_{case['k']}_{j}")
+        res = CliRunner().invoke(nxpimage.main, ["sb21", "get-sbkek", "-k", key.hex(), "-o", outdir], catch_exceptions=True)
+        if res.exit_code != 0:
+            if res.exception is not None and not isinstance(res.exception, (SPSDKError, SystemExit)):
+                raise res.exception
+            ctx.violation("cli-get-sbkek-fails", {"exit": res.exit_code, "output": (res.output or "")[-200:]})
+            continue
+        want = ref_modes.ecb_encrypt(key, KEYSTORE_CONST["derive_sb_kek_key"])
+        printed = [ln.split(":", 1)[1].strip() for ln in res.output.splitlines() if ln.startswith("SBKEK:")]
+        stored = None
+        try:
+            with open(os.path.join(outdir, "sbkek.txt"), encoding="utf-8") as f:
+                stored = f.read().strip()
+        except OSError:
+            pass
+        if printed != [want.hex()]:
+            ctx.violation("cli-get-sbkek-printed-key-differs-from-definition", {"master": key, "printed": printed, "want": want})
+        elif stored is None or bytes.fromhex(stored) != want:
+            ctx.violation("cli-get-sbkek-stored-text-key-differs-from-definition", {"master": key, "stored": stored, "want": want})
+        else:
+            n += 1
+            t.ok("keystore", "cli-get-sbkek")
     ctx.count("keystore_kdf", n)
     t.sample = {"keystore": "derive_*", "compared": n}
     t.flush()
